@@ -71,7 +71,8 @@ def cells(tier):
     def small(n):
         def f(op, story_k, tk, sk, nk):
             need = (sk or []).count('existing') + (1 if tk == 'existing' and sk else 0)
-            return need <= n and (nk is None or nk in (['fresh'], ['fresh', 'fresh'])) and story_k in (None, 'existing')
+            return need <= n and (nk is None or nk in (['fresh'], [])) and story_k in (None, 'existing') and \
+                (sk is None or sk in (['existing'], ['existing', 'same'], ['existing', 'unknown'], ['existing', 'existing'], []))
         return f
     out += make_cells(PID, 'frame', tier, N=1, thin=small(1), suffix='single-element')
     out += make_cells(PID, 'frame', tier, N=2, thin=lambda op, story_k, tk, sk, nk: small(2)(op, story_k, tk, sk, nk) and
